@@ -219,6 +219,20 @@ def helper(chk, impl):
         okr = okr and len(frees) == 1 and len(keeps) == 1 and frees != keeps and early <= keeps
         FREE = list(frees)[0] if len(frees) == 1 else ('b', 1)
         chk.ob('clean-up', '%s: returns false for an empty range, otherwise whether its own table is empty after the loop' % tag, okr, 'paths %r' % ([(o.kind, o.val) for o in outs][:6],), site)
+        # an empty range (start > end) overlaps nothing: every path that looks at the table - an iteration, the emptiness verdict, a
+        # panic - is taken only when start <= end is known, whatever form the test has. (The per-level index window does not imply
+        # it: an inverted range with both ends inside one P1 table selects that table at every level.)
+        def nonempty_known(st_):
+            for _s, a_, b_ in st_.rel:
+                ra_, rb_ = repr(a_), repr(b_)
+                if 'rs[12..48]' in ra_ and 're[' not in ra_ and 're[12..48]' in rb_ and 'rs[' not in rb_:
+                    return True
+            return False
+        touching = [o for o in outs if o.kind in ('loop', 'panic') or (o.kind == 'ret' and [e for e in o.st.events if e[0] in ('call', 'icall') and
+                                                                                                 e[1].split('::')[-1] in ('all', 'next', 'iter_mut', 'iter')])]
+        bad_e = [o for o in touching if not nonempty_known(o.st)]
+        chk.ob('clean-up', '%s: the table is looked at only when the range is known to be non-empty (start <= end)' % tag, bool(touching) and not bad_e,
+               '%d of %d table-touching paths are reachable with start > end' % (len(bad_e), len(touching)), site)
         # the walk never panics: every slot span, clamped range and child address it computes exists for every window, including the last
         # slot of the address space and the last slot below the non-canonical gap
         pan = [o for o in outs if o.kind == 'panic']
